@@ -17,15 +17,15 @@ import (
 
 // Spec describes one image completely.
 type Spec struct {
-	Plus       bool  // PE32+ (AMD64) instead of PE32 (I386)
-	FileAlign  int   // FileAlignment: 512 or 4096
-	Lfanew     int   // e_lfanew: offset of the PE signature (>= 64, multiple of 8)
-	Raw        []int // SizeOfRawData of each section; 0 = uninitialised-data section
-	Overlay    int   // bytes appended after the last section's raw data
-	CertBlob   int   // >0: a pre-existing attribute certificate table whose bCertificate has this many (arbitrary) bytes
-	LastShort  int   // >0: the last section's raw data is this many bytes SHORTER than its aligned size and the file ends there (non-conforming but seen in the wild)
-	Machine    uint16 // 0 = default for Plus
-	NumDirs    int    // NumberOfRvaAndSizes; 0 = 16
+	Plus      bool   // PE32+ (AMD64) instead of PE32 (I386)
+	FileAlign int    // FileAlignment: 512 or 4096
+	Lfanew    int    // e_lfanew: offset of the PE signature (>= 64, multiple of 8)
+	Raw       []int  // SizeOfRawData of each section; 0 = uninitialised-data section
+	Overlay   int    // bytes appended after the last section's raw data
+	CertBlob  int    // >0: a pre-existing attribute certificate table whose bCertificate has this many (arbitrary) bytes
+	LastShort int    // >0: the last section's raw data is this many bytes SHORTER than its aligned size and the file ends there (non-conforming but seen in the wild)
+	Machine   uint16 // 0 = default for Plus
+	NumDirs   int    // NumberOfRvaAndSizes; 0 = 16
 }
 
 func (s Spec) Name() string {
